@@ -16,6 +16,7 @@ func registerMore(m map[string]propSpec) {
 	m["C07"] = propSpec{Level: "fault_enumeration", Engines: []engine{
 		{Harness: "faults", Overlay: "base", Name: "answers"},
 		{Harness: "faults", Overlay: "base", Name: "cuts", Shards: 2},
+		{Harness: "regrace", Overlay: "base", Name: "regrace", Race: true},
 	}}
 	m["C08"] = propSpec{Level: "model_checking", Engines: []engine{
 		{Harness: "reg", Overlay: "base", Name: "sched", Shards: 8},
